@@ -245,21 +245,23 @@ theorem findParam_of_nodup : ∀ (ps : List Param), (ps.map (·.name)).Nodup →
       simp [this, ih]
 
 /-- the two object-level loops compose to the identity on the selected parameters when every
-parameter's own codec does -/
-theorem roundtrip_fields (ps : List Param) (subset : Option (List String)) :
+parameter's own codec does; the text may be written with one subset and read back with another
+(`none` = everything) -/
+theorem roundtrip_fields₂ (ps : List Param) (s1 s2 : Option (List String)) :
     ∀ st : List (Param × PyVal),
       (∀ pv ∈ st, findParam ps pv.1.name = some pv.1) →
       (∀ pv ∈ st, ∃ j, serializeValue pv.1 pv.2 = .ok j ∧ j.standard = true ∧
                         deserializeValue pv.1 j = .ok pv.2) →
-      ∃ fields, serializeParameters st subset = .ok fields ∧ Json.standardO fields = true ∧
-        deserializeFields ps subset fields =
-          .ok ((st.filter (fun pv => inSubset subset pv.1.name)).map (fun pv => (pv.1.name, pv.2)))
+      ∃ fields, serializeParameters st s1 = .ok fields ∧ Json.standardO fields = true ∧
+        deserializeFields ps s2 fields =
+          .ok ((st.filter (fun pv => inSubset s1 pv.1.name && inSubset s2 pv.1.name)).map
+                (fun pv => (pv.1.name, pv.2)))
   | [], _, _ => ⟨[], rfl, rfl, rfl⟩
   | (p, v) :: rest, hfind, hrt => by
-    obtain ⟨fields, h1, h2, h3⟩ := roundtrip_fields ps subset rest
+    obtain ⟨fields, h1, h2, h3⟩ := roundtrip_fields₂ ps s1 s2 rest
       (fun pv h => hfind pv (List.mem_cons_of_mem _ h)) (fun pv h => hrt pv (List.mem_cons_of_mem _ h))
     unfold serializeParameters at h1 ⊢
-    by_cases hsub : inSubset subset p.name = true
+    by_cases hsub : inSubset s1 p.name = true
     · obtain ⟨j, hj1, hj2, hj3⟩ := hrt (p, v) (List.mem_cons_self)
       have hf := hfind (p, v) (List.mem_cons_self)
       simp only [serializeValue] at hj1
@@ -273,11 +275,25 @@ theorem roundtrip_fields (ps : List Param) (subset : Option (List String)) :
           · simp [serializeComponents, hsub, hs, hcomps, dumpsFields, hj1, h1]
           · simp [Json.standardO, hj2, h2]
           · simp only [deserializeValue] at hj3
-            simp [deserializeFields, hsub, hf, hj3, h3]
+            by_cases hsub2 : inSubset s2 p.name = true
+            · simp [deserializeFields, hsub, hsub2, hf, hj3, h3]
+            · simp only [Bool.not_eq_true] at hsub2
+              simp [deserializeFields, hsub, hsub2, h3]
     · simp only [Bool.not_eq_true] at hsub
       refine ⟨fields, ?_, h2, ?_⟩
       · simpa [serializeComponents, hsub] using h1
       · simpa [hsub] using h3
+
+theorem roundtrip_fields (ps : List Param) (subset : Option (List String))
+    (st : List (Param × PyVal))
+    (hfind : ∀ pv ∈ st, findParam ps pv.1.name = some pv.1)
+    (hrt : ∀ pv ∈ st, ∃ j, serializeValue pv.1 pv.2 = .ok j ∧ j.standard = true ∧
+                        deserializeValue pv.1 j = .ok pv.2) :
+    ∃ fields, serializeParameters st subset = .ok fields ∧ Json.standardO fields = true ∧
+      deserializeFields ps subset fields =
+        .ok ((st.filter (fun pv => inSubset subset pv.1.name)).map (fun pv => (pv.1.name, pv.2))) := by
+  obtain ⟨fields, h1, h2, h3⟩ := roundtrip_fields₂ ps subset subset st hfind hrt
+  exact ⟨fields, h1, h2, by simpa using h3⟩
 
 /-! ### the validator on the schema shapes param generates -/
 
